@@ -261,11 +261,14 @@ class DocGen:
             for _ in range(r.randrange(1, 4)):
                 n = r.choice([1, 1, 2])
                 crit = tuple(self.comparison_on(*r.choice(cands)) for _ in range(n))
-                entries.append((crit, unit_bits * r.randrange(min_units if r.random() < 0.25 else max(1, min_units), 6)))
+                # a matching entry whose value is 0 (an empty field) is a value, not "no match": one entry in four where 0 is legal
+                units = 0 if (min_units == 0 and r.random() < 0.25) else r.randrange(max(1, min_units), 6)
+                entries.append((crit, unit_bits * units))
             # a catch-all last entry so that most packets find a match
             name, t = r.choice(cands)
             if r.random() < 0.8:
-                entries.append(((ir.Comparison(name, str(self.domain(t)[0]), ">=", False),), unit_bits * r.randrange(max(1, min_units), 4)))
+                entries.append(((ir.Comparison(name, str(self.domain(t)[0]), ">=", False),),
+                                unit_bits * (0 if (min_units == 0 and r.random() < 0.15) else r.randrange(max(1, min_units), 4))))
             return ir.Lookup(tuple(entries))
         return unit_bits * r.randrange(max(1, min_units), 7) if unit_bits > 1 else r.choice([1, 3, 8, 11, 16, 24, 40])
 
